@@ -220,6 +220,12 @@ def run_property(prop, ctx, broken=False):
         except ModelError as e:
             res.disagreement(case, None, 'model driver failure: %s' % e, 'driver')
 
+    known = load_known_findings()
+
+    def fresh_violations():
+        """violations that are not listed findings (a listed finding met on the way neither stops the run nor counts as a find)"""
+        return [v for v in res.violations if not match_known(known, prop.id, v)]
+
     # the model's matcher against CPython's, pattern by pattern (part of the tie; see harness/regexdiff.py)
     if ctx.model is not None and os.environ.get('VERIF_NO_REGEXDIFF') != '1':
         from . import regexdiff
@@ -245,9 +251,9 @@ def run_property(prop, ctx, broken=False):
         except StopIteration:
             break
         run_case(case)
-        if len(res.violations) >= 3 or len(res.disagreements) >= 5:
+        if len(fresh_violations()) >= 3 or len(res.disagreements) >= 5:
             break
-    if ctx.source_changed and not broken and not res.violations and not res.disagreements and ctx.tier == 'quick':
+    if ctx.source_changed and not broken and not fresh_violations() and not res.disagreements and ctx.tier == 'quick':
         # the source is not the one the model was last validated against: the quick sample says less than it does on the
         # unchanged tree, so more of the same (implementation against model and oracle) within the same time budget again
         t1 = time.time()
@@ -261,17 +267,26 @@ def run_property(prop, ctx, broken=False):
                 break
             run_case(case)
             extra += 1
-            if res.violations or len(res.disagreements) >= 5:
+            if fresh_violations() or len(res.disagreements) >= 5:
                 break
         res.distribution['extended_cases_because_source_changed'] = extra
-    if (broken or res.disagreements) and not res.violations:
-        # failing-input search: the oracle alone, on the implementation, with a larger budget
+    if (broken or res.disagreements) and not fresh_violations():
+        # failing-input search: the oracle alone, on the implementation, with a larger budget (the fixed cases first: a
+        # disagreement with the model ends a case before its oracle is consulted)
         saved = ctx.model_ok
         ctx.model_ok = False
         m = prop.search_cases(ctx)
         t1 = time.time()
         tried = 0
+        for case in prop.corpus(ctx):
+            tried += 1
+            res.evaluations += 1
+            prop.execute(case, ctx, res)
+            if fresh_violations():
+                break
         for _ in range(m):
+            if fresh_violations():
+                break
             if time.time() - t1 > budget_s:
                 break
             try:
@@ -281,12 +296,15 @@ def run_property(prop, ctx, broken=False):
             tried += 1
             res.evaluations += 1
             prop.execute(case, ctx, res)
-            if res.violations:
+            if fresh_violations():
                 break
         ctx.model_ok = saved
         res.search_summary = {'reason': 'proof obligation or correspondence broken', 'oracle_only_cases': tried,
-                              'found': bool(res.violations)}
-    # minimise the first violation's source when it has the standard shape
+                              'found': bool(fresh_violations())}
+    # minimise the first violation's source when it has the standard shape (fresh ones first)
+    fv = fresh_violations()
+    if fv:
+        res.violations = fv + [v for v in res.violations if v not in fv]
     if res.violations:
         try:
             res.violations[0] = shrink_violation(prop, ctx, res.violations[0])
